@@ -123,10 +123,22 @@ std::string damage(std::string d, const Plan & plan, Outcome & out)
         size_t pick = (op.arg(2) && data_toks.size() > 12) ? (size_t)(op.arg(0) % 12) : (size_t)(op.arg(0) % (i64)data_toks.size());
         size_t ti = data_toks[pick];
         static const char * EDGE[] = {"0", "-1", "1e999", "nan", "inf", "-0.0", "1", "4294967296", "1e-320"};
-        i64 mode = op.arg(1) % 14;
+        i64 mode = op.arg(1) % 16;
         std::string repl;
         if (mode < 4) { size_t src = mode < 2 ? (ti > 0 ? ti - 1 : ti) : (ti + 1 < toks.size() ? ti + 1 : ti); if (mode == 1 && ti > 1) src = ti - 2; if (mode == 3 && ti + 2 < toks.size()) src = ti + 2; repl = d.substr(toks[src].first, toks[src].second); }
         else if (mode < 13) repl = EDGE[mode - 4];
+        else if (mode >= 14) {
+          // near-copy: the previous field's value a couple of ulps up (mode 14) or down (mode 15) - a range that is not
+          // empty as two numbers but has no room for the grid between them
+          size_t src = ti > 0 ? ti - 1 : ti;
+          std::string t = d.substr(toks[src].first, toks[src].second);
+          char * end = nullptr; double v = std::strtod(t.c_str(), &end);
+          if (end && *end == '\0' && std::isfinite(v)) {
+            double dir = mode == 14 ? INFINITY : -INFINITY;
+            v = std::nextafter(std::nextafter(v, dir), dir);
+            char b[64]; std::snprintf(b, sizeof b, "%.17g", v); repl = b;
+          } else repl = t;
+        }
         else repl = d.substr(toks[ti].first, toks[ti].second) + " " + d.substr(toks[ti].first, toks[ti].second);
         d = d.substr(0, toks[ti].first) + repl + d.substr(toks[ti].first + toks[ti].second);
         out.ctr["fault_field_overwritten"]++;
@@ -411,7 +423,7 @@ void gen_faults(Rng & r, Plan & p, size_t approx_size, bool allow_inflight)
     else if (d < 82) { o.k = "dup"; o.a = {r.chance(0.5) ? (pos / 512) * 512 : pos, r.chance(0.5) ? 512 : r.range(1, 64)}; }
     else if (d < 89) { o.k = "dropline"; o.a = {(i64)r.below(60)}; }
     else if (d < 92) { o.k = "dupline"; o.a = {(i64)r.below(60)}; }
-    else if (d < 95) { o.k = "tok"; o.a = {(i64)r.below(4000), (i64)r.below(14), (i64)r.chance(0.6)}; }
+    else if (d < 95) { o.k = "tok"; o.a = {(i64)r.below(4000), (i64)r.below(16), (i64)r.chance(0.6)}; }
     else if (d < 98) { o.k = "splice"; o.a = {(i64)r.below(approx_size + 1), (i64)r.below(9), r.chance(0.5) ? r.range(1, 12) : r.range(13, 600), (i64)r.chance(0.6)}; }
     else { o.k = "empty"; }
     p.ops.push_back(o);
